@@ -1,10 +1,10 @@
 (* C08 — Manifest text round-trips: writer and parser are mutual inverses.
-   Statements only; proofs are in Proofs/{Codec,IntStr,Lines,EntryRT,TimeRT,FileRT}.v.
+   Statements only; proofs are in Proofs/{Codec,IntStr,Lines,EntryRT,TimeRT,FileRT,ParsedWf}.v.
    The theorems are about the model (Model/Entry.v, Model/Text.v) over the tables that
    tools/py2v.py regenerates from gemato/manifest.py on every run. *)
 From Coq Require Import List NArith ZArith.
 From Gemato Require Import Py.PyStr Py.PyTime Gen.PyFacts Gen.Tables Model.Entry Model.Text.
-From Gemato Require Import Proofs.Codec Proofs.IntStr Proofs.Lines Proofs.EntryRT Proofs.TimeRT Proofs.FileRT.
+From Gemato Require Import Proofs.Codec Proofs.IntStr Proofs.Lines Proofs.EntryRT Proofs.TimeRT Proofs.FileRT Proofs.ParsedWf.
 Import ListNotations.
 Open Scope N_scope.
 
@@ -56,12 +56,34 @@ Theorem C08_line_shape : forall es, Forall wf_entry es ->
 Proof. exact (dump_shape strptime_strftime). Qed.
 Print Assumptions C08_line_shape.
 
-(* canonical fixed point, given that the parsed entries are well-formed (shown separately
-   for the parser's output in C08_parsed_wf when available; PARTIAL otherwise) *)
-Theorem C08_fixpoint_partial : forall t es o, load t false = Ok (es, o) -> Forall wf_entry es ->
-  exists t', dump es false = Ok t' /\ load t' false = Ok (map norm es, None).
-Proof. intros t es o _ H. exact (load_dump strptime_strftime es false H). Qed.
-Print Assumptions C08_fixpoint_partial.
+(* every entry the parser returns is well-formed (the premise of the theorems above), for every text
+   that is a Python str, i.e. a sequence of code points <= 0x10FFFF - surrogates included *)
+Theorem C08_parsed_wf : forall t verify es o, Forall valid_cp t ->
+  load t verify = Ok (es, o) -> Forall wf_entry es.
+Proof. exact load_wf. Qed.
+Print Assumptions C08_parsed_wf.
+
+(* canonical fixed point: for every text the parser accepts, the written text is accepted again with
+   equal entries (checksum dicts in the writer's order, an equal dict), and writing those entries
+   gives the very same text *)
+Theorem C08_fixpoint : forall t es o, Forall valid_cp t -> load t false = Ok (es, o) ->
+  exists t', dump es false = Ok t' /\ load t' false = Ok (map norm es, None) /\
+             dump (map norm es) false = Ok t'.
+Proof. exact (load_dump_fixpoint strptime_strftime). Qed.
+Print Assumptions C08_fixpoint.
+
+(* non-vacuity of the fixed point: an accepted text with odd spacing, escapes, a signed size and
+   unsorted checksums; its rewritten form differs from it and is a fixed point *)
+Example C08_fixpoint_example :
+  let t := [32;68;65;84;65;9;97;92;120;50;48;98;32;32;43;48;55;32;83;72;65;49;32;97;98;32;77;68;53;32;99;100;13;10] in
+  match load t false with
+  | Ok (es, _) => match dump es false with
+                  | Ok t' => t' <> t /\ load t' false = Ok (map norm es, None) /\ dump (map norm es) false = Ok t'
+                  | Err _ => False
+                  end
+  | Err _ => False
+  end.
+Proof. vm_compute. split; [discriminate|split; reflexivity]. Qed.
 
 (* non-vacuity: a concrete entry list with escapes, a 2^64 size, AUX and TIMESTAMP entries is
    well-formed and round-trips by computation *)
